@@ -24,16 +24,22 @@ CHECKS = {
     "C03": ("Every W event of every pool type is compared byte for byte with Enc of Wire.tla (written from docs/format.md); "
             "8-bit integers exhaustive (16-bit in the thorough tier); W3 (minimal class) and W4 (size estimate) model-checked.", "6 C03"),
     "C04": ("Accept/reject, decoded value, consumed length and (for single-defect inputs) error category of every hostile input "
-            "compared with Dec of Wire.tla; W1/W2/W3/W4b model-checked on the spec.", "6 C04"),
+            "compared with Dec of Wire.tla. Inputs: byte-level damage of implementation-produced encodings at every leading "
+            "position, and TLC-generated field-level mutants (Hostile.tla: every integer field re-encoded in every class and "
+            "with off-by-one/overflowing/huge values). The oracle itself is model-checked: W1/W2/W3/W4b (MC_Wire) and W5, "
+            "Dec <=> the declarative grammar Lang.tla on every byte string up to length 4 (5 thorough) over 21 schemas "
+            "(MC_Lang).", "6 C04, 13.2"),
     "C05": ("Every strict prefix of implementation-produced encodings of every pool type read through every reader kind "
             "(buffer, pedantic, stringstream, ifstream, fd, BoundedReader over each): TrCodec.tla C05RC requires a non-ok "
-            "status for each; W2/W2f (every prefix of Enc is rejected as truncated) model-checked.", "6 C05"),
+            "status for each, incl. an FdReader on a pipe that delivers short reads; W2/W2f (every prefix of Enc is "
+            "rejected as truncated) and MC_Session.NoGhostSuccess (cut after any byte) model-checked.", "6 C05"),
     "C06": ("GetSize vs bytes emitted for every pool type/value, and every capacity 0..GetSize+2 on BufferWriter, "
             "PedanticBufferWriter, ConstexprBufferWriter and BoundedWriter over each with guard bytes; table entry frames "
             "re-parsed by Dec; W4 model-checked.", "6 C06"),
     "C10": ("For every generated value a fault is injected at EVERY primitive call position of Read and Write with every error "
             "code; TrCodec.tla C10Runs requires the code back verbatim, no call after the failure, emitted bytes a prefix of "
-            "the fault-free output and nothing written when Prepare fails.", "6 C10"),
+            "the fault-free output and nothing written when Prepare fails. The same at the RPC layer: a fault at every "
+            "primitive of each of the four pipe ends of SimpleMethodSender/Receiver calls (TrRpc.tla FaultFails).", "6 C10"),
     "C11": ("Reads into destinations whose prior state came from assignment or from a read that failed at primitive k are "
             "compared (status, value, consumed) with the read into a fresh object; lifetime ledger of Tracked elements must "
             "balance; ASan/UBSan build.", "6 C11"),
@@ -44,8 +50,9 @@ CHECKS = {
             "(status, index, wrapped position, exact wrapped calls).", "6 C16"),
     "C17": ("The same TLC-generated and random call sequences are executed directly on every library reader and writer "
             "(and Bounded over each) with element widths 1/2/4/8; TrIO.tla requires each call to be the step of the "
-            "IO.tla contract automaton up to and including the first failing call; MC_IO checks OneContract on the "
-            "product of all kinds.", "6 C17"),
+            "IO.tla contract automaton up to and including the first failing call (FdReader also over a bursty pipe); "
+            "MC_IO checks OneContract on the product of all kinds; 67 generated constexpr values are serialised in "
+            "constant expressions, by the constexpr writer at run time and by the pedantic writer, and must agree.", "6 C17"),
     "C18": ("SipHash.tla (SipHash-2-4 transcribed from the paper on 16-bit limbs, self-checked against the reference "
             "vectors by MC_Fn) evaluates every hash: messages of every length/residue, uint8_t and char buffers, varied keys, "
             "and 26 generated names x (NOP_TABLE_NS hash at compile time / run time / on the wire, NOP_INTERFACE and "
@@ -68,7 +75,8 @@ CHECKS = {
             "with corrupted tags/references/unresolvable references judged by Dec (UnexpectedHandleType, "
             "InvalidHandleReference verbatim). (b) Lifetimes.tla UniqueHandle machine: invariants HClosedOnce/HUnique "
             "model-checked, TLC-generated and random ownership histories replayed on UniqueHandle<CountingPolicy>; TrObj.tla "
-            "requires the exact ownership/close/release counters after every operation.", "6 C15"),
+            "requires the exact ownership/close/release counters after every operation; the same histories run on "
+            "UniqueFileHandle over real descriptors (closure observed with fcntl).", "6 C15"),
     "C07": ("Tables.tla: definitions evolving by add/remove/mark-deleted/reorder/replace-by-fungible with ids never reused; "
             "MC_Tables checks W6 (every pair of definitions of a history is mutually readable as Project prescribes, reader "
             "positioned after the table) over all histories of <= 4 steps (6 in the thorough tier); TLC emits the 254 "
@@ -91,7 +99,7 @@ CHECKS = {
     "C19": ("Threads.tla: per-thread, per-(T,Slot) storage; MC_Threads explores all interleavings of 2-3 threads running "
             "ThreadLocal programs (Isolation, ScheduleIndependent) and emits the schedules, which real std::threads replay in "
             "lock step; free-running 4-16 threads mix ThreadLocal operations on shared slot types with serializer round "
-            "trips on their own objects; TrThreads.tla validates every observation against the model and every in-thread "
+            "trips (12 encodings) and RPC connections on their own objects; TrThreads.tla validates every observation against the model and every in-thread "
             "codec step against Wire.tla; the executor is built with ThreadSanitizer and a report is a Race event that no "
             "action accepts.", "6 C19"),
 }
